@@ -104,6 +104,15 @@ def trigTypenameFieldClash (p : PackageIR) : Bool :=
 def trigMissingRebuild (p : PackageIR) : Bool :=
   p.modules.any fun m => m.classes.any fun c => !c.fwd.isEmpty && !m.rebuilds.contains c.name
 
+/-- F25: a quoted forward reference names a class the module does not define.  At an interface position the classes generated
+    for the types of inline fragments / fragment spreads all evaluate the SAME selection set; when such a type is not a
+    sub type of the position's interface (a fragment on another interface the position's type overlaps with brings an
+    inline fragment on one of ITS implementers), the position's own leaf fields are looked up in that unrelated type,
+    where the same name may be a composite field: the annotation quotes a class for it that is never generated (the
+    field has no sub-selection).  `model_rebuild()` then raises `PydanticUndefinedAnnotation` at import. -/
+def trigForwardRefDangling (p : PackageIR) : Bool :=
+  p.modules.any fun m => (m.kind == .result || m.kind == .fragments) && !(m.classes.all fun c => c.fwd.all m.defines.contains)
+
 /-- F13: a file is written twice (`_validate_unique_file_names` does not know the four custom-operation files nor
     `__init__.py`): the reported list names it twice, the first content is lost -/
 def trigFileWrittenTwice (p : PackageIR) : Bool := hasDup p.writeLog
@@ -156,6 +165,42 @@ def trigText (t : Embed.Trig) (inp : Input) : Bool :=
     | some .blockString, .blockString => true
     | _, _ => false
 
+/-- F23: two operations whose names give the same module name (`fooBar` / `foo_bar`: `process_name` maps both to
+    `foo_bar`): `_result_types_files` is a dict keyed by file name, the module of the earlier operation is silently
+    replaced by the later one (`_validate_unique_file_names` looks at the dict's keys, which cannot repeat), while
+    `__init__` (and the client module) still import the earlier operation's classes from it.  The trigger holds when a
+    name `add_operation` registered for `__init__` is not a class of the module that survives under that file name. -/
+def trigOperationModuleOverwritten (cfg : Config) (inp : Input) : Bool :=
+  match addOperations cfg inp fuel {} inp.ops with
+  | .ok st => st.init.any fun i =>
+      match st.files.find? (·.1 == pyFile i.module) with
+      | some fm => !(i.names.all (fm.2.classes.map (·.name)).contains)
+      | none => true
+  | .error _ => false
+
+def Lit.isEnumLit : InputGen.Lit → Bool
+  | .enum _ => true
+  | _ => false
+
+/-- `parse_input_field_type` answers the empty `field_type` (built-in scalar, or a scalar that is not configured) -/
+def emptyFieldType : InputField.Kind → Bool
+  | .builtin _ => true
+  | .any => true
+  | _ => false
+
+/-- F24 (C06-F2 seen from the package): `parse_input_const_value_node` writes an enum literal as `<field_type>.<VALUE>`
+    whatever the field's type is.  For a field that is not enum-typed this is `.<VALUE>` when `field_type` is empty (a
+    scalar: not Python, black refuses the module), and at the top of the default (`x: Code = FOO`, outside every
+    `lambda:`) a name that is evaluated when the class statement runs: the GraphQL name of a custom scalar (unbound) or
+    an input class (defined later, or without such an attribute). -/
+def trigEnumDefaultNotEnum (cfg : Config) (inp : Input) : Bool :=
+  (inputFieldsOf inp).any fun f =>
+    match f.default with
+    | none => false
+    | some lit =>
+      let k := InputField.kindOf (inputCfg cfg) inp.defs f.type.base
+      k != .enum && (Lit.isEnumLit lit || (InputField.Lit.hasEnum lit && emptyFieldType k))
+
 /-- evaluate a predicate on the model's package IR (false when the model's run does not end in a package) -/
 def onIR (cfg : Config) (inp : Input) (f : PackageIR → Bool) : Bool :=
   match modelIR cfg inp with
@@ -189,7 +234,10 @@ def triggerTable (cfg : Config) (inp : Input) : List (String × Bool) :=
    ("keywordEnumDefault", trigKeywordEnumDefault inp),
    ("textQuote", trigText .quote inp),
    ("textBlockString", trigText .blockString inp),
-   ("pluginExtractOperations", cfg.extractOps.isSome)]
+   ("pluginExtractOperations", cfg.extractOps.isSome),
+   ("operationModuleOverwritten", trigOperationModuleOverwritten cfg inp),
+   ("enumDefaultNotEnum", trigEnumDefaultNotEnum cfg inp),
+   ("forwardRefDangling", onIR cfg inp trigForwardRefDangling)]
 
 /-- the names of the triggers that hold (what the driver answers to `op: triggers`) -/
 def triggers (cfg : Config) (inp : Input) : List String :=
